@@ -53,6 +53,8 @@ def supported_ops(kind, pastify):
         base |= {'eventually_b', 'always_b', 'until_b', 'next', 's_next'}
     if pastify and kind == 'ct_on':
         base |= {'eventually_b', 'always_b'}
+    if pastify:
+        base = base - {'log'}       # log over a delayed operand raises during the warm-up (known finding F08)
     return base - {'exp', 'pow'}
 
 
